@@ -200,6 +200,12 @@ def r1_layout(program, folder, rep):
         for code, rest in ((word[2], word[3]), (word[3], word[2])):
             lay2 = provenance(reify(plain(code)))
             got2 = sorted((p.src, p.dst_lo, p.src_lo) for p in lay2.pieces)
+            if len(got2) == 3 and not any(
+                    x[0].startswith("self.") for x in got2):
+                raise AnalysisError("get_regions_and_coremasks: the region "
+                                    "word is built from another node object "
+                                    "than self (an iterative walk?); that "
+                                    "form is not analysed")
             if got2 == [("self.base_x", 24, 0), ("self.base_y", 16, 0),
                         ("self.level", 16, 0)] and not lay2.const:
                 oky = True
@@ -330,9 +336,15 @@ def r3_collapse(program, folder, rep):
     clears = [x for x in stores(A) if plain(x[2]) == SEL and x[3] == P_ and
               x[4] == ("const", 0)]
     okc = len(clears) == 1 and H.live(clears[0][0]) and \
-        H.must_pass(cfg.entry, lambda n: n is clears[0][0],
-                    targets=[cfg.exit]) and \
         full in [(plain(t), p) for t, p in A.all_facts(clears[0][0])]
+    if okc and not H.must_pass(cfg.entry, lambda n: n is clears[0][0],
+                               targets=[cfg.exit]):
+        # some path leaves before the final test (e.g. an early return when
+        # nothing changed): whether the selection can be complete there
+        # depends on an invariant of the tree, not on this function's shape
+        raise AnalysisError("add_core: not every path reaches the "
+                            "'complete?' test; whether the paths that skip "
+                            "it can be complete is not analysed")
     rep.check(okc, "C12-R3", inst, "a collapsing node clears its own "
               "selection (the parent's bit now stands for it)",
               construct="collapse clears", node=add)
@@ -352,8 +364,18 @@ def r3_collapse(program, folder, rep):
             plain(x)[1] == ("global", "RegionCoreTree"))
             for x in alternatives(recv))
         callt = A.term(c, n)
+        def after_full(s_):
+            # the store is reached only with the child having reported full
+            # (or without the child having been asked at all: the leaf level)
+            if (callt, True) in A.all_facts(s_[0]):
+                return True
+            paths_ = A.facts_by_path(s_[0])
+            return bool(paths_) and all(
+                (callt, True) in f_ or not cfg.reaches(n, ent_)
+                for ent_, f_ in paths_) and any(
+                (callt, True) in f_ for _, f_ in paths_)
         oks = is_child and args == [("param", p_) for p_ in ps[1:]] and any(
-            (callt, True) in A.all_facts(s_[0]) for s_ in sets)
+            after_full(s_) for s_ in sets)
         test = ("binop", "BitAnd", CELL, plain(BITV))
         test2 = ("binop", "BitAnd", plain(BITV), CELL)
         okd = any(p is False and plain(t) in (test, test2)
@@ -406,6 +428,12 @@ def r3_collapse(program, folder, rep):
     for b_ in I.binds:
         if b_.var == "self.subregions" and b_.mode == "assign":
             t = plain(I._bind_term(b_))
+            if t[0] in ("dict", "dictcomp") or (
+                    t[0] == "call" and t[1][0] == "global" and
+                    t[1][1] in ("dict", "defaultdict", "OrderedDict")):
+                raise AnalysisError("RegionCoreTree keeps its children in a "
+                                    "mapping, not in a 16-slot list; that "
+                                    "form is not analysed")
             ok16 = t in (("binop", "Mult", ("const", 16), ("list",
                                                           ("const", None))),
                          ("binop", "Mult", ("list", ("const", None)),
@@ -567,8 +595,27 @@ def r4_order(program, folder, rep):
               construct="core range", node=add)
     # own pairs sorted within a node
     g = program.get(TREE + ".get_regions_and_coremasks")
-    oks = any(isinstance(n, ast.For) and isinstance(n.iter, ast.Call) and
-              call_name(n.iter)[0] == "sorted" for n in ast.walk(g))
+    # the own pairs are yielded from a loop over something sorted (directly,
+    # or through groupby over a sorted sequence)
+    GG = Terms(g)
+    oks = False
+    for n in ast.walk(g):
+        if isinstance(n, ast.For) and id(n) in GG.cfg.loop_head and any(
+                isinstance(y_, ast.Yield) for y_ in ast.walk(n)):
+            it_ = plain(GG.term(n.iter, GG.cfg.loop_head[id(n)]))
+            if any(st_[0] == "call" and st_[1] == ("global", "sorted")
+                   for st_ in subterms(it_)) and it_[0] == "call" and (
+                    it_[1] == ("global", "sorted") or
+                    it_[1][-1] == "groupby"):
+                oks = True
+    if not oks and not any(
+            isinstance(c_, ast.Call) and call_name(c_)[0] in ("sorted",
+                                                              "sort")
+            for c_ in ast.walk(g)):
+        pass        # no sorting at all: a violation
+    elif not oks:
+        raise AnalysisError("get_regions_and_coremasks: how the node's own "
+                            "pairs are ordered is not analysed in this form")
     rep.check(oks, "C12-R4", qual(g), "a node's own pairs are emitted in "
               "increasing order of their select bits",
               construct="node pairs sorted", node=g)
